@@ -6,7 +6,7 @@
      spec_ok  : the decidable specification, evaluated on the IMPLEMENTATION's answer
    Nothing here is proved; it is extracted to OCaml and run by the harness. *)
 From Coq Require Import List Arith NArith Bool.
-From MR Require Import Lib.Bytes Lib.Val Model.Index Model.Dag Model.Git.
+From MR Require Import Lib.Bytes Lib.Val Model.Index Model.Dag Model.Git Model.Tracking.
 Import ListNotations.
 Open Scope nat_scope.
 
@@ -307,6 +307,75 @@ Definition check_cp_pending (v : val) : val :=
               | _, _ => false end in
   VL [eB true; ePending m; eB same; eB same].
 
+
+(* ---------- C12 / C13: run pointer and slots ---------- *)
+Definition dRec (v : val) : run_rec := {| rlogs := dNats (dNth v 0); rresult := dnat (dNth v 1) |}.
+Definition eSlot (s : slot) : val :=
+  match s with None => VL [] | Some (ls, r) => VL [eNats (nset_of ls); eOpt enat r] end.
+Definition ePtr (p : ptr) : val := match p with PAbsent => VL [] | PEmpty => VL [VN 0] | PVal i => VL [VN 1; enat i] end%N.
+Definition eFs (M : nat) (f : fs) : val := VL [ePtr (pointer f); VL (map (fun i => eSlot (slots f i)) (seq 0 (M + 3)))].
+Fixpoint val_eqb_fuel (fuel : nat) (a b : val) : bool :=
+  match fuel with 0 => false | S k =>
+    match a, b with
+    | VN x, VN y => N.eqb x y
+    | VL x, VL y => (length x =? length y) && forallb (fun '(p, q) => val_eqb_fuel k p q) (combine x y)
+    | _, _ => false
+    end end.
+Definition val_eqb := val_eqb_fuel 12.
+
+(* observed: VL [ptr; slots 0..M+2] in the same shape as eFs *)
+Definition slot_shows (v : val) : option (val * val) :=   (* (logs, result) when the slot has a result *)
+  match dL v with [ls; r] => match dL r with [x] => Some (ls, x) | _ => None end | _ => None end.
+Definition check_tracking (v : val) : val :=
+  let M := dnat (dNth v 0) in
+  let rs := map dRec (dL (dNth v 1)) in
+  let obs := dNth v 2 in
+  let f := history M true rs in
+  let mv := eFs M f in
+  let agree := val_eqb obs mv in
+  let k := length rs in
+  let obs_ptr := dNth obs 0 in
+  let obs_slots := dL (dNth obs 1) in
+  let obs_slot i := nth i obs_slots (VL []) in
+  let want n := let r := nth (n - 1) rs {| rlogs := []; rresult := 0 |} in (eNats (nset_of (rlogs r)), enat (rresult r)) in
+  let shows_run i n := match slot_shows (obs_slot i) with
+                       | Some (ls, x) => val_eqb ls (fst (want n)) && val_eqb x (snd (want n))
+                       | None => false end in
+  let spec :=
+    match k with
+    | 0 => match dL obs_ptr with [] => true | _ => false end
+    | _ =>
+      match dL obs_ptr with
+      | [_; i] => shows_run (dnat i) k
+      | _ => false end &&
+      forallb (fun n => (M <=? k - n) || shows_run (slot_of_run M n) n) (seq 1 k) &&
+      forallb (fun i => ((1 <=? i) && (i <=? M)) || match dL (obs_slot i) with [] => true | _ => false end) (seq 0 (M + 3))
+    end in
+  VL [eB (1 <=? M); mv; eB agree; eB spec].
+
+(* a run killed part-way: observed state must equal the model after SOME strict prefix of the run's effects;
+   spec: the property's clauses evaluated on the observed state *)
+Definition check_crash (v : val) : val :=
+  let M := dnat (dNth v 0) in
+  let rs := map dRec (dL (dNth v 1)) in
+  let r := dRec (dNth v 2) in
+  let obs := dNth v 3 in
+  let f := history M true rs in
+  match next_id M f with
+  | None => VL [eB false; VL []; eB false; eB false]
+  | Some i =>
+    (* every strict crash prefix leaves the pointer and all slots but i as they were (C13_holds); the slot being
+       written may hold any part of the new run's files, so it is compared by the harness, not here *)
+    let n := length (run_ops true i r) in
+    let cands := map (fun k => eFs M (crash true f i r k)) (seq 0 n) in
+    let agree := forallb (fun c => val_eqb (dNth c 0) (dNth obs 0) &&
+                   forallb (fun j => (j =? i) || val_eqb (nth j (dL (dNth obs 1)) (VL [])) (nth j (dL (dNth c 1)) (VL []))) (seq 0 (M + 3))) cands in
+    let before := eFs M f in
+    let same_ptr := val_eqb (dNth obs 0) (dNth before 0) in
+    let others_same := forallb (fun j => (j =? i) || val_eqb (nth j (dL (dNth obs 1)) (VL [])) (nth j (dL (dNth before 1)) (VL []))) (seq 0 (M + 3)) in
+    VL [eB (2 <=? M); before; eB agree; eB (same_ptr && others_same)]
+  end.
+
 (* ---------- dispatch ---------- *)
 From Coq Require Import String.
 Open Scope string_scope.
@@ -318,4 +387,6 @@ Definition dispatch (name : str) (v : val) : val :=
   else if str_eqb name (bs "analyze_groups") then check_analyze_groups v
   else if str_eqb name (bs "git_changes") then check_git_changes v
   else if str_eqb name (bs "cp_pending") then check_cp_pending v
+  else if str_eqb name (bs "tracking") then check_tracking v
+  else if str_eqb name (bs "crash") then check_crash v
   else VL [].
